@@ -460,7 +460,7 @@ func (c *BoolConverter) To(obj Object) (interface{}, error) {
 }
 
 func (c *BoolConverter) From(obj interface{}) (Object, error) {
-	return NewBool(obj.(bool)), nil
+	return NewBool(reflect.ValueOf(obj).Bool()), nil
 }
 
 // ByteConverter converts between byte and *Byte.
@@ -522,7 +522,7 @@ func (c *IntConverter) To(obj Object) (interface{}, error) {
 }
 
 func (c *IntConverter) From(obj interface{}) (Object, error) {
-	return NewInt(int64(obj.(int))), nil
+	return NewInt(reflect.ValueOf(obj).Int()), nil
 }
 
 // Int8Converter converts between int8 and *Int.
@@ -542,7 +542,7 @@ func (c *Int8Converter) To(obj Object) (interface{}, error) {
 }
 
 func (c *Int8Converter) From(obj interface{}) (Object, error) {
-	return NewInt(int64(obj.(int8))), nil
+	return NewInt(reflect.ValueOf(obj).Int()), nil
 }
 
 // Int16Converter converts between int16 and *Int.
@@ -562,7 +562,7 @@ func (c *Int16Converter) To(obj Object) (interface{}, error) {
 }
 
 func (c *Int16Converter) From(obj interface{}) (Object, error) {
-	return NewInt(int64(obj.(int16))), nil
+	return NewInt(reflect.ValueOf(obj).Int()), nil
 }
 
 // Int32Converter converts between int32 and *Int.
@@ -582,7 +582,7 @@ func (c *Int32Converter) To(obj Object) (interface{}, error) {
 }
 
 func (c *Int32Converter) From(obj interface{}) (Object, error) {
-	return NewInt(int64(obj.(int32))), nil
+	return NewInt(reflect.ValueOf(obj).Int()), nil
 }
 
 // Int64Converter converts between int64 and *Int.
@@ -602,7 +602,7 @@ func (c *Int64Converter) To(obj Object) (interface{}, error) {
 }
 
 func (c *Int64Converter) From(obj interface{}) (Object, error) {
-	return NewInt(obj.(int64)), nil
+	return NewInt(reflect.ValueOf(obj).Int()), nil
 }
 
 // UintConverter converts between uint and *Int.
@@ -622,7 +622,7 @@ func (c *UintConverter) To(obj Object) (interface{}, error) {
 }
 
 func (c *UintConverter) From(obj interface{}) (Object, error) {
-	return NewInt(int64(obj.(uint))), nil
+	return NewInt(int64(reflect.ValueOf(obj).Uint())), nil
 }
 
 // Uint8Converter converts between uint8 and *Int.
@@ -642,7 +642,7 @@ func (c *Uint8Converter) To(obj Object) (interface{}, error) {
 }
 
 func (c *Uint8Converter) From(obj interface{}) (Object, error) {
-	return NewInt(int64(obj.(uint8))), nil
+	return NewInt(int64(reflect.ValueOf(obj).Uint())), nil
 }
 
 // Uint16Converter converts between uint16 and *Int.
@@ -662,7 +662,7 @@ func (c *Uint16Converter) To(obj Object) (interface{}, error) {
 }
 
 func (c *Uint16Converter) From(obj interface{}) (Object, error) {
-	return NewInt(int64(obj.(uint16))), nil
+	return NewInt(int64(reflect.ValueOf(obj).Uint())), nil
 }
 
 // Uint32Converter converts between uint32 and *Int.
@@ -682,7 +682,7 @@ func (c *Uint32Converter) To(obj Object) (interface{}, error) {
 }
 
 func (c *Uint32Converter) From(obj interface{}) (Object, error) {
-	return NewInt(int64(obj.(uint32))), nil
+	return NewInt(int64(reflect.ValueOf(obj).Uint())), nil
 }
 
 // Uint64Converter converts between uint64 and *Int.
@@ -702,7 +702,7 @@ func (c *Uint64Converter) To(obj Object) (interface{}, error) {
 }
 
 func (c *Uint64Converter) From(obj interface{}) (Object, error) {
-	return NewInt(int64(obj.(uint64))), nil
+	return NewInt(int64(reflect.ValueOf(obj).Uint())), nil
 }
 
 // Float32Converter converts between float32 and *Float.
@@ -722,7 +722,7 @@ func (c *Float32Converter) To(obj Object) (interface{}, error) {
 }
 
 func (c *Float32Converter) From(obj interface{}) (Object, error) {
-	return NewFloat(float64(obj.(float32))), nil
+	return NewFloat(reflect.ValueOf(obj).Float()), nil
 }
 
 // Float64Converter converts between float64 and *Float.
@@ -742,7 +742,7 @@ func (c *Float64Converter) To(obj Object) (interface{}, error) {
 }
 
 func (c *Float64Converter) From(obj interface{}) (Object, error) {
-	return NewFloat(obj.(float64)), nil
+	return NewFloat(reflect.ValueOf(obj).Float()), nil
 }
 
 // StringConverter converts between string and *String.
@@ -762,7 +762,7 @@ func (c *StringConverter) To(obj Object) (interface{}, error) {
 }
 
 func (c *StringConverter) From(obj interface{}) (Object, error) {
-	return NewString(obj.(string)), nil
+	return NewString(reflect.ValueOf(obj).String()), nil
 }
 
 // ByteSliceConverter converts between []byte and *ByteSlice.
